@@ -151,6 +151,12 @@ func (c *Ctx) condDesc(iff *ssa.If, succ int, loops []*ir.Loop) string {
 			args = append(args, c.valueDesc(a))
 		}
 		d := n + "(" + strings.Join(args, ",") + ")"
+		// fs.FileInfo: IsDir() is documented as the abbreviation of Mode().IsDir()
+		if f := call.Call.StaticCallee(); f != nil && f.Name() == "IsDir" && len(call.Call.Args) == 1 && strings.Contains(f.String(), "io/fs.FileMode") {
+			if inner, ok := call.Call.Args[0].(*ssa.Call); ok && inner.Call.IsInvoke() && inner.Call.Method.Name() == "Mode" {
+				d = "IsDir(" + c.valueDesc(inner.Call.Value) + ")"
+			}
+		}
 		if succ == 0 {
 			return d
 		}
